@@ -58,7 +58,7 @@ Generic(e) ==
     /\ UNCHANGED <<prot, esc>>
 
 \* outside the modelled domain (the real step is still executed and judged by the property clauses)
-Unmodelled(e) == e.op = "RH" /\ ~IdxSane(idx)
+Unmodelled(e) == (e.op = "RH" /\ ~IdxSane(idx)) \/ ~Modelled
 
 \* first property clause that fails in the state just reached
 Clause ==
